@@ -163,6 +163,15 @@ type Params struct {
 	Body     bool   `json:"rpc_body"`
 	Header   bool   `json:"header"`
 	Leaves   bool   `json:"leaves"` // include the proto2 (extensions) and editions leaf files
+	// RRPlace says where request / response messages are declared. Bit 0: some of them live in another
+	// file of the service's package and in another package (written package-qualified in the rpc); bit 1:
+	// some of them are nested in another message (depth 1 and 2). Both bits: additionally one nested in a
+	// message of another package and one nested in a message of another file of the same package.
+	// 0: all of them are top-level messages of the service's file.
+	RRPlace int `json:"req_resp_place,omitempty"`
+	// CustomPart restricts Custom to one of the two suffix options: 0 both, 1 only
+	// enum_zero_value_suffix, 2 only service_suffix (so that a lint block with exactly one key exists).
+	CustomPart int `json:"custom_part,omitempty"`
 }
 
 // DefaultParams is the simplest member.
@@ -172,16 +181,27 @@ func DefaultParams() Params {
 
 // Key is a short stable identifier.
 func (p Params) Key() string {
-	return fmt.Sprintf("%s/%s/%s/opts=%v/%s/custom=%v/empty=%d/prr=%v/body=%v/hdr=%v/leaves=%v",
+	key := fmt.Sprintf("%s/%s/%s/opts=%v/%s/custom=%v/empty=%d/prr=%v/body=%v/hdr=%v/leaves=%v",
 		Palettes[p.Palette].Name, p.SyntaxA, p.Doc, p.FileOpts, p.Version, p.Custom, p.Empty, p.PrefixRR, p.Body, p.Header, p.Leaves)
+	if p.RRPlace != 0 {
+		key += fmt.Sprintf("/rrplace=%d", p.RRPlace)
+	}
+	if p.Custom && p.CustomPart != 0 {
+		key += fmt.Sprintf("/custompart=%d", p.CustomPart)
+	}
+	return key
 }
 
 // Opts are the lint options under which the member is clean.
 func (p Params) Opts() LintOpts {
 	o := LintOpts{}
 	if p.Custom {
-		o.ZeroSuffix = "_NONE"
-		o.SvcSuffix = "API"
+		if p.CustomPart != 2 {
+			o.ZeroSuffix = "_NONE"
+		}
+		if p.CustomPart != 1 {
+			o.SvcSuffix = "API"
+		}
 	}
 	o.AllowEmptyReq = p.Empty&1 != 0
 	o.AllowEmptyResp = p.Empty&2 != 0
@@ -382,6 +402,68 @@ func Build(p Params) *Spec {
 	}
 	if p.Empty == 3 {
 		svcA.Methods = append(svcA.Methods, &Method{Name: pal.RpcPing, Doc: p.Doc, Req: emptyType, Resp: emptyType})
+	}
+
+	// ---- where the request / response messages are declared (RRPlace) ----------------------------
+	// A request / response type need not be a top-level message of the service's own file: the rules
+	// about its name are about the message's own (short) name wherever it is declared.
+	if p.RRPlace != 0 {
+		inUse := func(m *Message) bool {
+			for _, sv := range []*Service{svcA, svcB} {
+				for _, mt := range sv.Methods {
+					if mt.Req.Msg == m || mt.Resp.Msg == m {
+						return true
+					}
+				}
+			}
+			return false
+		}
+		// move re-homes a message that is still used by an RPC (Empty may have replaced it)
+		move := func(m *Message, from, toFile *File, toMsg *Message) {
+			if !inUse(m) {
+				return
+			}
+			drop(from, m)
+			if toFile == a {
+				// file A has its own syntax: proto2 needs explicit labels
+				for _, fd := range m.Fields {
+					if sa == "proto2" && fd.Label == "" && fd.Type.MapKey == "" {
+						fd.Label = "optional"
+					}
+				}
+			}
+			if toMsg != nil {
+				toMsg.Messages = append(toMsg.Messages, m)
+			} else {
+				toFile.Messages = append(toFile.Messages, m)
+			}
+		}
+		if p.RRPlace&1 != 0 {
+			// service B (package B) takes / returns messages declared in package A (file A is imported by
+			// file C anyway); their payload must then come from file A as well
+			undoResp.Fields[0].Type = Type{Msg: mid}
+			if p.RRPlace&2 != 0 {
+				move(undoReq, fc, a, other) // nested in a message of another package
+			} else {
+				move(undoReq, fc, a, nil)
+			}
+			move(undoResp, fc, a, nil)
+			// service A (file B) takes a message declared in the other file of its package
+			move(delReq, fb, a, nil)
+			if p.RRPlace&2 != 0 {
+				move(getReq, fb, a, other) // nested in a message of the other file of the package
+			}
+		}
+		if p.RRPlace&2 != 0 {
+			env := &Message{Name: pal.SvcA + "Envelope", Doc: p.Doc}
+			move(listReq, fb, fb, env)
+			move(listResp, fb, fb, env)
+			if len(env.Messages) > 0 {
+				fb.Messages = append(fb.Messages, env)
+			}
+			move(doReq, fc, fc, inner)   // depth 2: Holder.Inner.<Rpc>Request
+			move(doResp, fc, fc, holder) // depth 1, after the declared nested message
+		}
 	}
 
 	s := &Spec{Files: []*File{a, fb, fc}}
